@@ -99,17 +99,33 @@ def get_event(i, rparts, dt, mt, order, doc, entry, edit=None):
     e["proj"] = enc_path(path)
     e["mods_pure"] = bool(pure[0])
 
+    held = []
+
+    def the_data():
+        # ONE Data object, kept by the caller and used for every call of this event
+        if not held:
+            held.append(valida.Data(doc))
+        return held[0]
+
     def call(rp):
         if entry == "get_data_raw":
             return path.get_data(doc, return_paths=rp)
         if entry == "get_data_Data":
-            return path.get_data(valida.Data(doc), return_paths=rp)
+            return path.get_data(the_data(), return_paths=rp)
         if entry == "Data_get_path":
             return valida.Data(doc).get(path, return_paths=rp)
         if entry == "Data_get_parts":
             return valida.Data(doc).get(*parts, return_paths=rp)
         return path.get_data(return_paths=rp)
 
+    if entry == "get_data_Data" and not rparts:
+        # the whole document read through the held Data object: what comes back is the caller's to edit (a mapping is
+        # rebuilt per call); a later call on the same Data object still reads the document
+        o0, r0 = outcome_of(lambda: call(False))
+        if isinstance(r0, dict) and r0 is not doc:
+            r0["edited"] = 1
+        elif isinstance(r0, list) and r0 is not doc and not any(r0 is v for v in (doc.values() if isinstance(doc, dict) else doc)):
+            r0.append("edited")
     if edit is not None:
         outcome_of(lambda: call(True))
         poke(doc, edit)
